@@ -12,8 +12,19 @@ from vlib.core import q, qmat, qvec, nat, coqstr, coqlist
 
 IMPORTS = ("From Coq Require Import List QArith ZArith String.\n"
            "From RV Require Import base.Num model.Datasets run.RunC20.\nImport ListNotations.\nOpen Scope Q_scope.")
+IMPORTS_GEN = ("From Coq Require Import List QArith ZArith String.\n"
+               "From RV Require Import base.Num model.Datasets run.RunC20 run.RunGenC20.\nImport ListNotations.\nOpen Scope Q_scope.")
+GEN_RENAMES = {"chk_%s " % n: "chk_gen_%s " % n for n in (
+    "fc1", "fc2", "fc_rejects", "onehot_z", "onehot_s", "onehot_col_z", "onehot_col_s", "onehot_grid_z", "onehot_grid_s",
+    "onehot_multi_z", "onehot_multi_s")}
 TRUSTED = ["numpy indexing/moveaxis/unique/eye/split are what the list model gives them as meaning (slices = firstn/skipn, "
            "moveaxis of a 2-D array = transpose, unique = sorted duplicate-free list); compared on every run, not assumed",
+           "tie (T) for the helpers: tools/vlib/py2coq_ds.py (fail-closed ast translator of to_forecasting / one_hot_encode, re-run on the tree under "
+           "test) and coq/base/DSPrelude.v, the meaning given to the Python/numpy constructs they use (a[lo:hi] with negative bounds incl. -0, "
+           "round() = half-to-even on the exact rational product, isinstance on test_size as a 3-constructor type, np.moveaxis as identity (axis 0) / "
+           "2-D transposition (axis 1), np.unique = sorted duplicate-free list + position of each label, np.eye(n)[idx], np.cumsum, np.split, "
+           "reshape of a trailing singleton axis; the debugging print in one_hot_encode is skipped by exact text); the generated functions are "
+           "proved EQUAL to model/Datasets.v (proofs/Gen_datasets_eq.v) and also executed on every correspondence scenario (run/RunGenC20.v)",
            "numpy's RNG is not modelled: narma is always called with a user-supplied u",
            "string labels: Coq's String.leb (byte-wise lexicographic, proved a total order) stands for numpy's code-point order; "
            "scenarios use ASCII labels only"]
@@ -380,10 +391,38 @@ def nontrivial(c, o):
     return False
 
 
+def pregen_helpers():
+    """tie (T) for the helpers: re-translate to_forecasting (datasets/__init__.py) and one_hot_encode (datasets/_utils.py) of the tree
+    under test into coq/gen/Gen_datasets.v (translator vlib/py2coq_ds.py, vocabulary coq/base/DSPrelude.v).  Returns None or the error
+    text; on failure a stub that does not compile replaces the file (never a stale model).  Independent of the maps unit."""
+    import os
+    import traceback
+    from vlib import py2coq_ds
+    path = os.path.join(core.COQ, "gen", "Gen_datasets.v")
+    os.makedirs(os.path.dirname(path), exist_ok=True)
+    err = None
+    try:
+        text = py2coq_ds.emit(core.REPO)
+    except py2coq_ds.Reject as ex:
+        err = "translation rejected: %s" % ex
+    except Exception:
+        err = "translator exception: " + traceback.format_exc()[-1500:]
+    if err is not None:
+        text = "(* GENERATED: translation of the dataset helpers FAILED -- %s *)\nDefinition translation_failed : True := 0.\n" % (
+            err.replace("*)", "* )").replace("(*", "( *"))
+    old = open(path).read() if os.path.exists(path) else None
+    if old != text:               # keep the mtime (and the compiled cone) when nothing changed
+        with open(path, "w") as f:
+            f.write(text)
+    return None if err is None else "unit datasets (to_forecasting, one_hot_encode): %s" % err
+
+
 def pregen(ctx):
-    """tie (T): re-translate logistic_map / henon_map / narma of datasets/_chaos.py of the tree under test into coq/gen/Gen_maps.v"""
+    """tie (T): re-translate logistic_map / henon_map / narma of datasets/_chaos.py of the tree under test into coq/gen/Gen_maps.v,
+    and to_forecasting / one_hot_encode into coq/gen/Gen_datasets.v (the two units fail independently)"""
     from vlib import gen
-    return gen.pregen_units(["maps"])
+    errs = [e for e in (gen.pregen_units(["maps"]), pregen_helpers()) if e]
+    return "\n".join(errs) or None
 
 
 def correspondence(ctx):
@@ -414,7 +453,16 @@ def correspondence(ctx):
         if nontrivial(c, o):
             nt.add(repr(jsonable(c)))
     failing, err = core.run_cases(ctx.pid, IMPORTS, terms, chunk=20)
-    evaluated = len(cases) - dist.get("skipped-diverging", 0)
+    # the helpers GENERATED from the current source (tie T: coq/gen/Gen_datasets.v), executed at Q on the same scenarios against the
+    # same observations (run/RunGenC20.v): validates the translator and the numpy vocabulary of base/DSPrelude.v dynamically
+    from vlib import gen
+    gfail, gerr, ngen = gen.rerun_generated(ctx.pid, IMPORTS_GEN, terms, GEN_RENAMES, chunk=20)
+    dist["generated-helper runs"] = ngen
+    dist["generated-helper disagreements"] = len(gfail)
+    if gerr:
+        err = (err or "") + "generated helpers (Gen_datasets.v): " + gerr
+    failing = sorted(set(failing) | set(gfail))
+    evaluated = len(cases) - dist.get("skipped-diverging", 0) + ngen
     return {"evaluations": evaluated, "distinct_nontrivial": len(nt),
             "rule": "seeded scenarios: to_forecasting on 1-D/2-D series (time axis 0/1, forecast 1-3, test_size None/int incl. 0, negative, "
                     "too large/dyadic ratio; forecast and int test sizes also as numpy signed/unsigned integers, a few rejected ratios), one_hot_encode on int/str/bool labels (list, array, column, list of "
@@ -614,6 +662,42 @@ def _judge0(c):
     return None
 
 
+def _judge_onehot_mixed_dtypes():
+    """one_hot_encode on a LIST of label sequences whose arrays have different dtypes (numpy picks the width of a string array from its longest
+    element; an integer sequence next to a float one): every label of every sequence is in the class list and is mapped to its unit vector"""
+    ds = datasets()
+    out = []
+    probes = [("str", [["a", "b", "a"], ["cat", "a", "dog"], ["Dog", "ab"]]),
+              ("str", [["b"], ["ca", "cat", "b"]]),
+              ("num", [[1, 2, 1], [0.5, 2.0, 1.5]]),
+              ("num", [[3, -1], [2.5, 3.0], [-1, 4]])]
+    for typ, seqs in probes:
+        c = {"kind": "onehot_mixed", "typ": typ, "seqs": seqs}
+        try:
+            arg = [np.array(s) for s in seqs]          # each array gets its own natural dtype (<U1 / <U3, int64 / float64)
+            enc, cls = call_quiet(ds.one_hot_encode, arg)
+            cls = list(np.asarray(cls).tolist())
+            want = sorted(set(v for s in seqs for v in s))
+            same = len(cls) == len(want) and all((a == b) for a, b in zip(cls, want))
+            if not same:
+                out.append(_viol("one_hot:mixed-dtype-sequences", "label sequences of dtypes %s: the class list is %r, not the sorted duplicate-free labels %r"
+                                 % ([str(a.dtype) for a in arg], cls, want), c, want, cls))
+                continue
+            if len(enc) != len(seqs):
+                out.append(_viol("one_hot:mixed-dtype-sequences", "label sequences of different dtypes: %d pieces for %d sequences" % (len(enc), len(seqs)), c))
+                continue
+            for si, (sq, e) in enumerate(zip(seqs, enc)):
+                e = np.asarray(e)
+                exp = np.array([[1.0 if cl == v else 0.0 for cl in want] for v in sq])
+                if e.shape != exp.shape or not np.array_equal(e, exp):
+                    out.append(_viol("one_hot:mixed-dtype-sequences", "label sequences of dtypes %s: sequence %d is not encoded by the unit vectors of its labels"
+                                     % ([str(a.dtype) for a in arg], si), c, exp.tolist(), e.tolist()))
+                    break
+        except Exception as e:  # noqa: BLE001
+            out.append(_viol("one_hot:mixed-dtype-sequences:exception", "one_hot_encode on label sequences of different dtypes raises %r" % (e,), c))
+    return out
+
+
 def oracle(ctx, scale=1):
     rng = ctx.rng("oracle")
     cases = gen_cases(rng, ctx.n(400, 4000) * scale, oracle=True)
@@ -623,12 +707,16 @@ def oracle(ctx, scale=1):
         v = _judge(c)
         if v:
             out.append(v)
-    return {"evaluations": len(cases), "violations": out, "distribution": dist,
+    out += _judge_onehot_mixed_dtypes()
+    return {"evaluations": len(cases) + 4, "violations": out, "distribution": dist,
             "rule": "direct recomputation on the real functions with Python fractions: row-by-row alignment along the time axis "
                     "(1-D/2-D/3-D, negative axes, arbitrary float ratios), class list = sorted(set(labels)) and unit rows, "
                     "every consecutive pair of logistic/Henon, every step of the documented NARMA recurrence"}
 
 
 def replay(payload):
+    if payload["scenario"].get("kind") == "onehot_mixed":
+        vs = _judge_onehot_mixed_dtypes()
+        return {"violates": bool(vs), "detail": vs[:1]}
     v = _judge(payload["scenario"])
     return {"violates": bool(v), "detail": v}
